@@ -2,14 +2,14 @@ SPECIFICATION GSpec
 CONSTANTS
   Alphabet = {97, 10}
   MaxStream = 3
-  MaxChunk = 2
+  MaxChunk = 1
   ReadIds = {2, 4, 7, 11, 13, 19}
   WriteLens = {0, 2}
   MaxWrites = 2
   Grants = {1, 3}
   MaxCredit = 12
   Mwbs = {0}
-  Ccs = {0, 1}
+  Ccs = {1}
   Conns = {0, 1}
   Ops = {"read", "deliver", "write", "grant", "close", "closeexc", "eof", "reset", "terror", "wreset", "werror", "connok", "connfail"}
   L = 4
